@@ -1333,17 +1333,28 @@ def rule_nameeq(ctx):
     """R-NAMEEQ: names are compared whole"""
     fx = ctx.fx
     res = RuleResult("R-NAMEEQ", "the type checker identifies types, constructors, destructors, definitions and variables by their names; every "
-                     "comparison of names in it is an equality of whole strings (==, a key of a map or set, Vec::contains). A look-up that "
+                     "comparison of names in a function that reads a table of the symbol table is an equality of whole strings (==, a key of a map or set, Vec::contains). A look-up that "
                      "accepts a prefix, a suffix or a substring (str::starts_with / ends_with / contains / find ..), or that "
                      "folds the case, takes one name for another: `No` for `Node`, `get` for `get_all` - a constructor is then typed at the "
                      "wrong declaration, a well-typed program rejected or an ill-typed one accepted")
     n = 0
+    lookup_memo = {}
+    n_lookup = [0]
+    from ..mir import rvalue_places
     for key, f in sorted(fx.fns.items()):
         if f["crate"] != "fun" or "{promoted" in key or "::parser::" in key or key.startswith("fun::parser"):
             continue
         if f.get("trait_impl", "").endswith("::Print") or "printer::Print" in key:
             continue
         n += 1
+        # look-ups: the function (or the function a closure belongs to) reads a table of the symbol table
+        owner = fx.fns.get(key.split("::{closure")[0], f)
+        if key not in lookup_memo:
+            lookup_memo[key] = any("symbol_table::SymbolTable" in (e.get("of") or "") for g in (f, owner) for b_ in g["blocks"] for s_ in b_["stmts"] if s_["k"] == "assign"
+                                   for pl_, _r in rvalue_places(s_["rv"]) for e in pl_["p"] if isinstance(e, dict) and "f" in e)
+        if not lookup_memo[key]:
+            continue
+        n_lookup[0] += 1
         for b in f["blocks"]:
             t = b["term"]
             if t["k"] != "call" or t.get("callee_name") not in PARTIAL_STR:
@@ -1356,7 +1367,7 @@ def rule_nameeq(ctx):
             res.violate(ikey, "%s compares a name with str::%s: a look-up that accepts a part of a name (or folds its case) takes one name for another - "
                         "the checker then types a construct at the wrong declaration" % (key.split("::{")[0].split("::")[-1], t["callee_name"]),
                         t["sp"]["file"], t["sp"]["line"])
-    if n < 50:
-        raise AnalysisError("R-NAMEEQ: only %d functions of the front end were scanned" % n)
-    res.inst("fun:whole-name comparisons", "lang/fun/src/typing/symbol_table.rs", 1, "ok", "%d functions of the front end (parser and printers aside) scanned, no partial string match" % n)
+    if n_lookup[0] < 5:
+        raise AnalysisError("R-NAMEEQ: only %d functions that read a table of the symbol table were found" % n_lookup[0])
+    res.inst("fun:whole-name comparisons", "lang/fun/src/typing/symbol_table.rs", 1, "ok", "%d functions (and closures) that read a table of the symbol table scanned, no partial string match" % n_lookup[0])
     return res
